@@ -71,7 +71,7 @@ def run(prop, tier, seed, replay=None):
     jobs = jobs_for(prop, tier)
     prepare = None
     if prop == 'C13':
-        num = 50 if tier == 'quick' else 1500
+        num = 50 if tier == 'quick' else 250
 
         def prepare(work):
             # spec -> code: behaviours of DefSys.tla chosen by TLC's simulator, replayed on the real object
